@@ -156,10 +156,30 @@ def repo_facts(log=None):
         env.pop("MIRDUMP_NAME", None)
         t0 = time.time()
         cmd = ["cargo", "+nightly", "check", "--offline", "-p", "lexgen", "-p", "lexgen_util",
-               "-p", "char_range_gen", "--lib", "--bins", "--tests"]
+               "-p", "char_range_gen", "--lib", "--bins", "--tests", "--message-format=json"]
         try:
             r = subprocess.run(cmd, cwd=repo, env=env, stdout=subprocess.PIPE,
-                               stderr=subprocess.STDOUT, universal_newlines=True, timeout=1500)
+                               stderr=subprocess.PIPE, universal_newlines=True, timeout=1500)
+            arts = {}
+            human = [r.stderr]
+            for line in r.stdout.splitlines():
+                if not line.startswith("{"):
+                    continue
+                try:
+                    m = json.loads(line)
+                except ValueError:
+                    continue
+                if m.get("reason") == "compiler-artifact":
+                    nm = m["target"]["name"]
+                    for fn in m.get("filenames", []):
+                        if nm == "lexgen" and fn.endswith(".so"):
+                            arts["lexgen_so"] = fn
+                        if nm == "lexgen_util" and fn.endswith(".rmeta") and \
+                                not m.get("profile", {}).get("test"):
+                            arts["lexgen_util_rmeta"] = fn
+                elif m.get("reason") == "compiler-message":
+                    human.append(m.get("message", {}).get("rendered") or "")
+            r.stdout = "\n".join(human)
         except subprocess.TimeoutExpired:
             raise BuildFailure("building /repo with the analysis driver did not finish in 1500 s "
                                "(macro expansion of one of the repository's own lexers hangs?)", "")
@@ -173,6 +193,11 @@ def repo_facts(log=None):
         if missing:
             raise BuildFailure("fact files missing for crates %s (wrapper skipped?)" % missing,
                                r.stdout)
+        if "lexgen_so" not in arts or "lexgen_util_rmeta" not in arts:
+            raise BuildFailure("proc-macro / runtime artifacts not reported by cargo", r.stdout)
+        arts["deps"] = os.path.join(tdir, "debug", "deps")
+        with open(os.path.join(out, "ARTIFACTS"), "w") as f:
+            json.dump(arts, f)
         with open(stamp, "w") as f:
             f.write("%.1f\n" % (time.time() - t0))
         _prune(os.path.join(WORK, "facts"), 6)
